@@ -56,6 +56,7 @@ class Req:
         self.mid = None
         self.first_tx = None
         self.acked = False   # exchange closed by ACK/RST (model, from the wire)
+        self.withdrawn = False   # the application itself cancelled it (fault menu)
 
 
 class MatchScenario(NetScenario):
@@ -173,6 +174,10 @@ class MatchScenario(NetScenario):
             if r.mtype == "CON" and r.mid is not None:   # a held-back request has no message ID to reset yet
                 out.append(("rst:%s" % r.name, 1))
                 out.append(("rst@port:%s" % r.name, 1))
+        if "withdraw" not in st.faults_used:
+            # the application loses interest in a request (held back or in flight): the others must not notice
+            for r in live:
+                out.append(("withdraw:%s" % r.name, 1))
         if done and "replay" not in st.faults_used:
             out.append(("replay:%s" % done[0].name, 1))
         for s in ("S1", "S2"):
@@ -215,7 +220,8 @@ class MatchScenario(NetScenario):
         elif kind == "replay":
             r = byname[parts[1]]
             st.faults_used.add("replay")
-            body = r.obj.response.result().payload if r.obj.response.exception() is None else b"FORGED"
+            f = r.obj.response
+            body = f.result().payload if not f.cancelled() and f.exception() is None else b"FORGED"
             w.inject(SRV[r.srv], CLI, rc.encode((rc.CON, 69, 0x6667, r.token, [], body)))
             self.expect_unmatched(st, before, nsent, SRV[r.srv], rc.CON, 0x6667, label)
         elif kind in ("rst", "rst@port"):
@@ -229,6 +235,17 @@ class MatchScenario(NetScenario):
                     st.violations.append(Violation("rst-does-not-complete", "request failed", "pending", "messagemanager.py:_remove_exchange", {}, key="rst"))
             else:
                 self.expect_same(st, before, label)
+            self.expect_no_tx(st, nsent, label)
+        elif kind == "withdraw":
+            r = byname[parts[1]]
+            st.faults_used.add("withdraw")
+            r.withdrawn = True
+            r.obj.response.cancel()
+            w.loop.settle()
+            for o in st.reqs:
+                if o is not r and before[o.name] != self.snap1(o):
+                    st.violations.append(Violation("withdrawal-changed-other-request", before[o.name], self.snap1(o),
+                                                   "tokenmanager.py:request", {}, key="withdraw-other"))
             self.expect_no_tx(st, nsent, label)
         elif kind == "icmp":
             s = parts[1]
@@ -261,6 +278,8 @@ class MatchScenario(NetScenario):
         f = r.obj.response
         if not f.done():
             return "pending"
+        if f.cancelled():
+            return "cancelled"
         if f.exception() is not None:
             return "exc:" + type(f.exception()).__name__
         return "res:" + f.result().payload.decode("latin1")
@@ -360,7 +379,9 @@ class MatchScenario(NetScenario):
             if r.done_calls > 1:
                 st.violations.append(Violation("completed-twice", 1, r.done_calls, "protocol.py:Request._run", {}, key="twice"))
             if f.done():
-                if f.cancelled():
+                if f.cancelled() and r.withdrawn:
+                    pass
+                elif f.cancelled():
                     st.violations.append(Violation("request-cancelled", "result or error.Error", "cancelled", "protocol.py", {}, key="cancel"))
                 elif f.exception() is not None:
                     if not isinstance(f.exception(), error.Error):
